@@ -42,6 +42,10 @@ type TransferPlan struct {
 	Bound      time.Duration `json:"bound"`
 	// Liveness: whether completion is asserted (requires an honest, re-dialling full source).
 	Liveness bool `json:"liveness"`
+	// LivenessProp: property the non-completion is attributed to (default C10).
+	LivenessProp string `json:"liveness_prop,omitempty"`
+	// PreSeeded: the SUT already has the data (the attack hits a seeding / verifying torrent).
+	PreSeeded bool `json:"pre_seeded,omitempty"`
 }
 
 // transferWorld is the running state.
@@ -213,6 +217,13 @@ func RunTransfer(env *Env, plan *TransferPlan) {
 		return
 	}
 	w.dir = sut.TorrentDir("tt")
+	if plan.PreSeeded && !plan.Magnet {
+		for fi, f := range T.Files {
+			if !f.Pad {
+				fs.Put(w.dir+"/"+T.FileRel(fi), T.FileData(fi))
+			}
+		}
+	}
 	installDiskOracle(fs, T, w.dir, func(ev *simfs.WriteEvent, fi int) {
 		w.mu.Lock()
 		w.writesBegun++
@@ -358,13 +369,17 @@ func RunTransfer(env *Env, plan *TransferPlan) {
 		})
 		var ss torrent.SessionStats
 		sut.In(func() { ss = sut.Sess.Stats() })
-		simrt.Violate("C10", "liveness.not_complete", "download not complete %v after faults stopped: status=%s have=%d/%d peers=%v err=%v downloads=%+v writecache=%d/%d pending=%d avail=%d",
+		lp := plan.LivenessProp
+		if lp == "" {
+			lp = "C10"
+		}
+		simrt.Violate(lp, "liveness.not_complete", "download not complete %v after faults stopped: status=%s have=%d/%d peers=%v err=%v downloads=%+v writecache=%d/%d pending=%d avail=%d",
 			plan.Bound, st.Status, st.Pieces.Have, st.Pieces.Total, ps, st.Error, st.Downloads, ss.WriteCacheSize, sut.Cfg.WriteCacheSize, ss.WriteCachePendingKeys, st.Pieces.Available)
 	}
 	if complete {
 		w.checkComplete("final")
 	}
-	env.NonTriv = w.writesBegun > 0
+	env.NonTriv = w.writesBegun > 0 || plan.PreSeeded
 	env.SigAdd("np=%d nf=%d pl=%d peers=%d ws=%d", T.NumPieces, len(T.Files), T.PieceLen, len(plan.Peers), len(plan.Webseeds))
 	simrt.FreezeTrace()
 	for _, a := range w.peers {
